@@ -32,6 +32,8 @@ Inductive case :=
         (proof_ok dec3 sig_ok : bool) (o : obs)
 | CFund (v : nview) (amounts : list N) (accts_ok dec : bool) (nbal : N) (sig_ok : bool) (o : obs)
 | CReplenish (v : nview) (nacc target : N) (dec1 : bool) (deposits : list N) (dec3 sig_ok : bool) (o : obs)
+| CForm (kind : N) (funded dec1 : bool) (host_sum host_cost : N) (dec3 : bool) (nset nitems : N)
+        (is_renewal id_eq rsig_ok csig_ok : bool) (cost : N) (o : obs)
 | CPass (rpc : N) (dec : bool) (o : obs).
 
 Fixpoint nlist_eqb (a b : list N) : bool :=
@@ -94,6 +96,16 @@ Definition check_case (c : case) : bool :=
       | Err => match_rev Err [] o
       | Ok (Some v', u) => match_rev (Ok (v', u)) [len deposits] o
       | Ok (None, u) => match_rev (Ok (v, u)) [len deposits] o     (* the caller's revision, unchanged *)
+      end
+  | CForm kind funded dec1 host_sum host_cost dec3 nset nitems is_renewal id_eq rsig_ok csig_ok cost o =>
+      (* kind 0: RPCFormContract; 1: renew and both refresh RPCs. On success the harness reports
+         the cost, whether the returned contract is field by field the renter's own (1) and
+         whether its host signature verifies over it (1) *)
+      match (if kind =? 0 then form_decide funded dec1 host_sum host_cost dec3 nset nitems id_eq csig_ok cost
+             else renew_decide funded dec1 host_sum host_cost dec3 nset nitems is_renewal rsig_ok csig_ok cost), o with
+      | Err, OErr => true
+      | Ok k, OOk l => nlist_eqb [k; 1; 1] l
+      | _, _ => false
       end
   | CPass _ dec o =>
       match pass_decide dec, o with
